@@ -272,6 +272,47 @@ impl Stream for Invalid
 			(format!("fn bad(v: {t}) -> &{t}\n{{\n\treturn: &v\n}}"), &[530]),
 			(format!("fn bad(a: []{t}) -> &{t}\n{{\n\treturn: &a[0]\n}}"), &[530, 500, 512]),
 		];
+		let mut kinds = kinds;
+		// constants initialised with whole arrays / structures of other constants
+		kinds.push((format!("const KB: [2]{t} = KA;\n\nfn bad()\n{{\n}}"), &[531]));
+		kinds.push((format!("const KM: [2][2]{t} = [[1, 2], KA];\n\nfn bad()\n{{\n}}"), &[531]));
+		kinds.push((format!("const KO: Outer = {mk_outer};\n\nconst KP: Outer = KO;\n\nfn bad()\n{{\n}}"), &[533]));
+		kinds.push((format!("const KI: Inner = Inner {{ v: 1, w: Wd {{ lo: 1, hi: 2 }} }};\n\nconst KP: Outer = Outer {{ inner: KI, items: [1, 2], n: 3 }};\n\nfn bad()\n{{\n}}"), &[533]));
+		kinds.push((format!("const KP: Outer = Outer {{ inner: Inner {{ v: 1, w: Wd {{ lo: 1, hi: 2 }} }}, items: KA, n: 3 }};\n\nfn bad()\n{{\n}}"), &[531]));
+		// the address of something immutable taken deep inside an expression:
+		// every expression position is analysed, whatever surrounds it
+		{
+			let places: [(&str, &str, &'static [u16]); 4] = [
+				(&format!("v: {t}")[..], "v", &[530]),
+				("s: Outer", "s.n", &[530]),
+				("", "K", &[530]),
+				(&format!("a: []{t}")[..], "a[0]", &[530, 500, 512]),
+			];
+			let (param, place, codes) = places[c.draw(places.len())];
+			let e = format!("bump(&{})", place);
+			let body = match c.draw(12)
+			{
+				0 => format!("\tvar z = {e};"),
+				1 => format!("\tvar z: {t} = 0;\n\tz = {e};"),
+				2 => format!("\tvar z = idt({e});"),
+				3 => format!("\tprint!({e}, \"\\n\");"),
+				4 => format!("\tprint!(\"a\", idt({e}), \"\\n\");"),
+				5 => format!("\tif {e} == 1\n\t{{\n\t}}"),
+				6 => format!("\tvar z: [2]{t} = [1, {e}];"),
+				7 => format!("\tvar z = Inner {{ v: {e}, w: Wd {{ lo: 1, hi: 2 }} }};"),
+				8 => format!("\tvar z: {t} = 1 + (2 * {e});"),
+				9 => format!("\tvar z = {e} as u8;"),
+				10 => format!("\tvar z = idt(idt({e}) + 1);"),
+				_ => format!("\tvar arr: [2]{t} = [1, 2];\n\tvar z = arr[{e} as usize];"),
+			};
+			kinds.push((format!("fn bump(p: &{t}) -> {t}\n{{\n\tp = p + 1;\n\treturn: p\n}}\n\nfn bad({param})\n{{\n{body}\n}}"), codes));
+			// (picked with the weight of several templates)
+			for _ in 0..5
+			{
+				let last = kinds.last().unwrap().clone();
+				kinds.push(last);
+			}
+		}
 		let (bad, codes) = c.pick(&kinds).clone();
 		// the same statements in other control-flow positions: every analysis
 		// pass has to look into every branch of every `if`
